@@ -120,8 +120,9 @@ fn check_word(word: &[usize], gens: &[Gen], r: &mut Report) {
         for i in 0..4 { for j in 0..4 {
             let e = if i == j { 1.0 } else { 0.0 };
             // rounding of the f32 inverse is relative to the magnitude of the cancelling terms (large translations)
-            let s: f64 = (0..4).map(|k| (a[i][k] * b[k][j]).abs()).sum();
-            let tol = tol.max(64.0 * f32::EPSILON as f64 * cond.max(1.0) * s);
+            // backward-stable bound: entries of the f32 inverse are accurate relative to their row's magnitude
+            let s: f64 = 4.0 * (0..4).map(|k| a[i][k].abs()).fold(0.0, f64::max) * (0..4).map(|k| b[k][j].abs()).fold(0.0, f64::max);
+            let tol = tol.max(16.0 * f32::EPSILON as f64 * cond.max(1.0) * s);
             if !((prod[i][j] - e).abs() <= tol) {
                 let pivot0 = mf[0][0] == 0.0;
                 r.violation(key(if pivot0 { "inverse|zero-leading-pivot" } else { "inverse" }), format!("{nm}[{i}][{j}] = {} (cond~{cond:.1}); M = {:?}; inverse() = {:?}", prod[i][j], m.0, inv.0), case());
